@@ -37,7 +37,7 @@ MANIFEST = {
 
 HEAD = (
     "import dataclasses\nfrom dataclasses import dataclass, field, KW_ONLY, InitVar\nfrom dataclasses import dataclass as dc\n"
-    "import typing\nfrom typing import ClassVar\nopts = {'kw_only': True}\n"
+    "import typing\nfrom typing import ClassVar\nopts = {'kw_only': True}\nfopts = {'default': 0}\n"
 )
 FORMS = {
     "plain": "{n}: int", "default": "{n}: int = 0", "field()": "{n}: int = field()", "field(default)": "{n}: int = field(default=0)",
@@ -50,6 +50,8 @@ FORMS = {
     "ClassVar-bare": "{n}: ClassVar = 0", "typing.ClassVar": "{n}: typing.ClassVar[int] = 0",
     # the sentinel itself as class-level value, without field(): no default for CPython (the way to make an inherited defaulted field required again)
     "bare-MISSING": "{n}: int = dataclasses.MISSING",
+    # field options unpacked from a module-level dictionary (plain and dotted spelling of field) and from a dictionary display written in place
+    "field(**opts)": "{n}: int = field(**fopts)", "dotted-field(**opts)": "{n}: int = dataclasses.field(**fopts)", "field(**{})": '{n}: int = field(**{{"default": 0}})',
 }
 FORM_NAMES = list(FORMS)
 DECOS = {
@@ -251,7 +253,7 @@ CATEGORY = {
     # F init field, N field(init=False), I InitVar, C ClassVar, U other class attribute, K marker; "=" leaves a class-level value, "k" keyword-only
     "plain": "F", "default": "F=", "field()": "F", "field(default)": "F=", "field(factory)": "F=", "field(kw_only)": "Fk", "field(default,kw_only)": "Fk=", "field(kw_only=False)": "Fnk",
     "dotted-field": "F=", "InitVar": "I", "InitVar=": "I=", "field(init=False)": "N", "field(init=False,default)": "N=", "ClassVar": "C=",
-    "unannotated": "U=", "method": "U=", "property": "U=", "KW_ONLY": "K", "field(default=MISSING)": "Fm", "bare-MISSING": "Fm", "ClassVar-bare": "C=", "typing.ClassVar": "C=",
+    "unannotated": "U=", "method": "U=", "property": "U=", "KW_ONLY": "K", "field(default=MISSING)": "Fm", "bare-MISSING": "Fm", "field(**opts)": "F=", "dotted-field(**opts)": "F=", "field(**{})": "F=", "ClassVar-bare": "C=", "typing.ClassVar": "C=",
 }
 
 
